@@ -193,6 +193,13 @@ def confirm_native(ops_f, obligations_fn, profiles=('dev', 'release')):
         if any(isinstance(o, str) and o.startswith('ctor:') for o in outs): return [], lines, 'constructor failed natively'
         if any(o == 'panic' for o in outs):
             return ['panic'], lines, 'native panic (%s profile)' % prof
+        tail_only = getattr(obligations_fn, 'tail_only', False)
+        if tail_only:
+            # only the final outputs of each slot are compared by these obligations: intermediate NaN/inf (e.g. a zero reference price) is not the subject
+            lastidx = {}
+            for i, op in enumerate(ops_f):
+                if op[0] in ('feed', 'feed_di', 'pipe'): lastidx[op[1]] = i
+            outs = [o if (o is None or i in lastidx.values() or (isinstance(o, list) and all(math.isfinite(x) for x in o))) else [0.0] * len(o) for i, o in enumerate(outs)]
         if not all(o is None or (isinstance(o, list) and all(math.isfinite(x) for x in o)) for o in outs):
             return ['non-finite'], lines, 'native output is NaN/inf: %r (%s profile)' % ([o for o in outs if o is not None], prof)
         fouts = [None if o is None else [F(x) for x in o] for o in outs]
